@@ -1,10 +1,9 @@
 import NomtModel.Store.FreeListLemmas
 /-!
-Bounded exhaustive evidence for the part of the free-list model that is NOT proved in general: on well-shaped
-lists `finish` does not hit a panic site / run out of loop fuel, and its result is well-shaped again.
-(The general proof needs the arithmetic loop invariant of `preallocate`, "free list length + i is divisible by
-`MAX_PNS_PER_PAGE`", carried through `push_and_encode`; the conservation theorems of `FreeListLemmas.lean`
-are conditional on `finish … = some _` instead.)
+Bounded exhaustive evaluation of the executable free-list model: on well-shaped lists `finish` does not hit a
+panic site / run out of loop fuel, and its result is well-shaped again.  The general statement (every capacity
+≥ 2, every list, every allocation count, every freed list) is proved in `Store/FreeListTotal.lean`
+(`finish_total`); this file is kept as an independent kernel evaluation of the definitions themselves.
 -/
 namespace Nomt.Store.FreeList
 
